@@ -203,19 +203,18 @@ def scanLiteralIdentifier (d : Dialect) (s : Bytes) : Token × Bytes :=
     else if d.postgres then (⟨stringTokenTypeOf q, b⟩, r)
     else (tokNamed "ID" b, r)
 
+/-- `scanBindVar` after the colon(s): `buf` = what is in the buffer -/
+def bindVarTail (name : String) (buf t1 : Bytes) : Token × Bytes :=
+  if !headIs isLetter t1 then (tokNamed "LEX_ERROR" buf, t1)
+  else
+    let p := fun c => isLetter c || isDigit c || c == 46
+    (tokNamed name (buf ++ t1.takeWhile p), t1.dropWhile p)
+
 /-- `scanBindVar`; the suffix starts at the `:` -/
-def scanBindVar (s : Bytes) : Token × Bytes :=
-  match s with
+def scanBindVar : Bytes → Token × Bytes
   | [] => (tokNamed "LEX_ERROR" [0], [])   -- not reached: called with `lastChar == ':'`
-  | c :: t =>
-    let (name, buf, t1) :=
-      (match t with
-       | c2 :: t2 => if c2 == 58 then ("LIST_ARG", [c, c2], t2) else ("VALUE_ARG", [c], t)
-       | [] => ("VALUE_ARG", [c], t))
-    if !headIs isLetter t1 then (tokNamed "LEX_ERROR" buf, t1)
-    else
-      let p := fun c => isLetter c || isDigit c || c == 46
-      (tokNamed name (buf ++ t1.takeWhile p), t1.dropWhile p)
+  | [c] => bindVarTail "VALUE_ARG" [c] []
+  | c :: c2 :: t2 => if c2 == 58 then bindVarTail "LIST_ARG" [c, c2] t2 else bindVarTail "VALUE_ARG" [c] (c2 :: t2)
 
 /-- label `exit:` of `scanNumber` -/
 def numberExit (name : String) (buf s : Bytes) : Token × Bytes :=
@@ -496,45 +495,48 @@ def scanOperator (ch : UInt8) (t : Bytes) : Option (Token × Bytes) :=
   else if ch == 33 then some (if h == some 61 then (tokNamed "NE" [], t.tail) else (tokChar ch, t))
   else none
 
+/-- the two `switch` statements of `Scan`: `ch` = the current character after `skipBlank`, `t` = the suffix after it -/
+def scanDispatch (d : Dialect) (multi : Bool) (posVar : Nat) (ch : UInt8) (t : Bytes) : Out SRes :=
+  if isLetter ch then
+    if (ch == 88 || ch == 120) && t.head? == some 39 then liftTok posVar (scanHex t.tail)
+    else if (ch == 66 || ch == 98) && t.head? == some 39 then liftTok posVar (scanBitLiteral t.tail)
+    else if (ch == 69 || ch == 101) && t.head? == some 39 then
+      liftTok posVar (.ok (scanString 39 (.named "PG_ESCAPE_STRING") t.tail))
+    else liftTok posVar (.ok (scanIdentifier d ch (ch == 64 && t.head? == some 64) t))
+  else if isDigit ch then liftTok posVar (scanNumber false (ch :: t))
+  else if ch == 58 then liftTok posVar (.ok (scanBindVar (ch :: t)))
+  else if ch == 59 && multi then .ok (.tok tokEof (ch :: t) posVar)
+  else if G.simpleTokens.contains ch.toNat then .ok (.tok (tokChar ch) t posVar)
+  else if ch == 63 then .ok (.tok (tokNamed "VALUE_ARG" ([58, 118] ++ decimal (posVar + 1))) t (posVar + 1))
+  else if ch == 46 then
+    if headIs isDigit t then liftTok posVar (scanNumber true t) else .ok (.tok (tokChar ch) t posVar)
+  else if ch == 47 then
+    if t.head? == some 47 then liftTok posVar (scanCommentType1 [47, 47] t.tail)
+    else if t.head? == some 42 then
+      if t.tail.head? == some 33 then scanMySQLSpecificComment posVar t.tail
+      else liftTok posVar (scanCommentType2 t.tail)
+    else .ok (.tok (tokChar ch) t posVar)
+  else if ch == 35 then liftTok posVar (scanCommentType1 [35] t)
+  else if ch == 45 then
+    if t.head? == some 45 then liftTok posVar (scanCommentType1 [45, 45] t.tail)
+    else if t.head? == some 62 then
+      if t.tail.head? == some 62 then .ok (.tok (tokNamed "JSON_UNQUOTE_EXTRACT_OP" []) t.tail.tail posVar)
+      else .ok (.tok (tokNamed "JSON_EXTRACT_OP" []) t.tail posVar)
+    else .ok (.tok (tokChar ch) t posVar)
+  else if ch == 36 then liftTok posVar (scanDollarParameter t)
+  else
+    match scanOperator ch t with
+    | some r => liftTok posVar (.ok r)
+    | none =>
+      if isIdentQuote d ch then liftTok posVar (.ok (scanLiteralIdentifier d t))
+      else if isStrQuote d ch then liftTok posVar (.ok (scanString ch (stringTokenTypeOf ch) t))
+      else .ok (.tok (tokNamed "LEX_ERROR" [ch]) t posVar)
+
 /-- `Scan` from `skipBlank` on, for a tokenizer whose `specialComment` is nil and `ForceEOF` false -/
 def scanSuffix (d : Dialect) (multi : Bool) (posVar : Nat) (s0 : Bytes) : Out SRes :=
   match skipBlank s0 with
   | [] => .ok (.tok tokEof [] posVar)
-  | ch :: t =>
-    if isLetter ch then
-      if (ch == 88 || ch == 120) && t.head? == some 39 then liftTok posVar (scanHex t.tail)
-      else if (ch == 66 || ch == 98) && t.head? == some 39 then liftTok posVar (scanBitLiteral t.tail)
-      else if (ch == 69 || ch == 101) && t.head? == some 39 then
-        liftTok posVar (.ok (scanString 39 (.named "PG_ESCAPE_STRING") t.tail))
-      else liftTok posVar (.ok (scanIdentifier d ch (ch == 64 && t.head? == some 64) t))
-    else if isDigit ch then liftTok posVar (scanNumber false (ch :: t))
-    else if ch == 58 then liftTok posVar (.ok (scanBindVar (ch :: t)))
-    else if ch == 59 && multi then .ok (.tok tokEof (ch :: t) posVar)
-    else if G.simpleTokens.contains ch.toNat then .ok (.tok (tokChar ch) t posVar)
-    else if ch == 63 then .ok (.tok (tokNamed "VALUE_ARG" ([58, 118] ++ decimal (posVar + 1))) t (posVar + 1))
-    else if ch == 46 then
-      if headIs isDigit t then liftTok posVar (scanNumber true t) else .ok (.tok (tokChar ch) t posVar)
-    else if ch == 47 then
-      if t.head? == some 47 then liftTok posVar (scanCommentType1 [47, 47] t.tail)
-      else if t.head? == some 42 then
-        if t.tail.head? == some 33 then scanMySQLSpecificComment posVar t.tail
-        else liftTok posVar (scanCommentType2 t.tail)
-      else .ok (.tok (tokChar ch) t posVar)
-    else if ch == 35 then liftTok posVar (scanCommentType1 [35] t)
-    else if ch == 45 then
-      if t.head? == some 45 then liftTok posVar (scanCommentType1 [45, 45] t.tail)
-      else if t.head? == some 62 then
-        if t.tail.head? == some 62 then .ok (.tok (tokNamed "JSON_UNQUOTE_EXTRACT_OP" []) t.tail.tail posVar)
-        else .ok (.tok (tokNamed "JSON_EXTRACT_OP" []) t.tail posVar)
-      else .ok (.tok (tokChar ch) t posVar)
-    else if ch == 36 then liftTok posVar (scanDollarParameter t)
-    else
-      match scanOperator ch t with
-      | some r => liftTok posVar (.ok r)
-      | none =>
-        if isIdentQuote d ch then liftTok posVar (.ok (scanLiteralIdentifier d t))
-        else if isStrQuote d ch then liftTok posVar (.ok (scanString ch (stringTokenTypeOf ch) t))
-        else .ok (.tok (tokNamed "LEX_ERROR" [ch]) t posVar)
+  | ch :: t => scanDispatch d multi posVar ch t
 
 /-! ## frames: one `Tokenizer` value without its nested tokenizer -/
 
